@@ -95,6 +95,11 @@ class Actor(BackgroundService, abc.ABC):
                 raise
             except Exception:  # pylint: disable=broad-except
                 _logger.exception("Actor %s: Raised an unhandled exception.", self)
+                # If the exception was raised while the actor was being cancelled
+                # (for example by a failing cleanup), it must not be restarted.
+                if (task := asyncio.current_task()) and task.cancelling() > 0:
+                    _logger.info("Actor %s: Cancelled, not restarting.", self)
+                    raise
                 limit_str = "∞" if self._restart_limit is None else self._restart_limit
                 limit_str = f"({n_restarts}/{limit_str})"
                 if self._restart_limit is None or n_restarts < self._restart_limit:
